@@ -6,7 +6,7 @@
 From Coq Require Import String Lia PeanoNat.
 From Spl Require Import Model.Format Model.Lexer Spec.Grammar Proofs.LexerProofs Proofs.RenderProofs Proofs.PipelineText
   Proofs.FormatProofs Proofs.FormatStructText Proofs.FormatStructTok Proofs.FormatStructExpr Proofs.FormatStructStmt.
-From Spl Require Proofs.GrammarProofs.
+From Spl Require Proofs.GrammarProg.
 Import ListNotations.
 Local Open Scope nat_scope.
 
@@ -270,7 +270,7 @@ Proof.
       rewrite is_nil_app_ne by (intros E; apply app_eq_nil in E; destruct E as [_ E]; discriminate E). cbn [is_nil].
       rewrite <- ?app_assoc. rewrite (shape2 (sh LCurly) unit). nl_split.
       pose proof (Wv_unit f sym_ok _ _ Wvd) as Wvd'.
-      cbn [fl_decl fl_stmts cm map app]. Show.
+      cbn [fl_decl fl_stmts cm map app].
       apply Wv_tok_sp; [reflexivity | | reflexivity | discriminate].
       apply Wv_tok_punct; [assumption | reflexivity | | reflexivity].
       apply Wp; [wv2 | reflexivity].
@@ -376,7 +376,7 @@ Theorem idempotent_comment_free p toks ins ts txt :
 Proof.
   intros Hok Hc Hv Hk Ht.
   destruct (tokens p toks _ txt (options_unit_ok ins ts) Hc Hv Hk Ht) as (toks' & El & Ek & _).
-  unfold format_request. rewrite El, (GrammarProofs.roundtrip p toks' Hok Ek).
+  unfold format_request. rewrite El, (GrammarProg.roundtrip p toks' Hok Ek).
   assert (Hs : same_kinds toks' toks) by (unfold same_kinds; rewrite Ek, Hk; reflexivity).
   rewrite (fmt_program_kinds _ (expected p) toks' toks Hs), Ht, text_eqb_refl. reflexivity.
 Qed.
@@ -395,7 +395,7 @@ Proof.
   destruct (structure p toks _ (options_unit_ok ins ts) Hc Hv Hk) as (txt & gaps & E & _).
   destruct (tokens p toks _ txt (options_unit_ok ins ts) Hc Hv Hk E) as (toks' & El' & Ek' & _).
   exists txt, toks'. split; [|split; [exact El' | split; [congruence|]]].
-  - unfold formatted_text. rewrite El, (GrammarProofs.roundtrip p toks Hok Hk), E. reflexivity.
+  - unfold formatted_text. rewrite El, (GrammarProg.roundtrip p toks Hok Hk), E. reflexivity.
   - exact (idempotent_comment_free p toks ins ts txt Hok Hc Hv Hk E).
 Qed.
 
